@@ -4,14 +4,14 @@
 P=$1
 N=$(basename "$P" .diff)
 W=$(mktemp -d /tmp/verif-refac.XXXXXX)
-git -C /repo worktree add -q --detach "$W/r" HEAD >/dev/null 2>&1 || exit 2
+git -C /repo worktree add -q --detach "$W/r" "${REFRUN_REV:-HEAD}" >/dev/null 2>&1 || exit 2
 trap 'git -C /repo worktree remove --force "$W/r" >/dev/null 2>&1; rm -rf "$W"' EXIT INT TERM
 git -C "$W/r" apply "$P" || { echo "patch does not apply: $N"; exit 2; }
 export VERIF_OUT_DIR=/verif/out/refac/$N VERIF_EVIDENCE_DIR=/verif/out/refac/$N/evidence VERIF_NO_SELFTEST=1
 mkdir -p "$VERIF_EVIDENCE_DIR"
 bad=0
 for batch in "C01 C02 C03 C04 C05 C06 C07" "C08 C09 C10 C11 C12 C13 C14" "C15 C16 C17 C18 C19 C20"; do
-  for p in $batch; do ( /verif/bin/govc check $p --tier quick -repo "$W/r" > "$VERIF_OUT_DIR/$p.log" 2>&1; echo "$p $?" > "$VERIF_OUT_DIR/$p.rc" ) & done; wait
+  for p in $batch; do ( "${GOVC_BIN:-/verif/bin/govc}" check $p --tier quick -repo "$W/r" > "$VERIF_OUT_DIR/$p.log" 2>&1; echo "$p $?" > "$VERIF_OUT_DIR/$p.rc" ) & done; wait
 done
 for f in "$VERIF_OUT_DIR"/*.rc; do read p rc < "$f"; if [ "$rc" != 0 ]; then bad=1; echo "ALARM $N $p rc=$rc: $(grep -E '^(VIOLATION|ENGINE)' "$VERIF_OUT_DIR/$p.log" | head -3 | tr '\n' ' ')"; fi; done
 [ $bad -eq 0 ] && echo "quiet $N"
